@@ -16,7 +16,7 @@ RULE_OWNER = {
     'tree_shape': ['C09'], 'tree_x': ['C09'], 'origin': ['C09'], 'not_rejected': ['C09'],
     'tree_cnt': ['C10'], 'book': ['C10'], 'published': ['C10'], 'hier': ['C10'],
     'invoked': ['C10'], 'exception': ['C10', 'C09'],
-    'view': ['C07'],
+    'view': ['C07'], 'zview': ['C07'], 'seen': ['C05'], 'leaves': ['C09'],
 }
 
 MC_PROPS = {
@@ -30,6 +30,7 @@ INITIALS = [
     [('agents', 'a', 'T1', 2)],
     [('agents', 'a', 'T2', 0), ('agents', 'b', 'T3', 1)],
     [('agents', 'a', 'T4', 0), ('pool', 'b', 'T1', 0)],
+    [('agents', 'a', 'T2', 0), ('agents', 'b', 'T2', 0), ('agents', 'c', 'T5', 1)],
 ]
 
 
@@ -90,7 +91,7 @@ def histories(tier, seed):
         ini = rng.choice(INITIALS)
         out.append((ini, sr.random_history(rng, rng.randint(3, 8), model_of(ini),
                                            names=['a', 'b', 'c', 'd'],
-                                           tpls=('T1', 'T2', 'T3', 'T4'), max_comps=4)))
+                                           tpls=('T1', 'T2', 'T3', 'T4', 'T5'), max_comps=4)))
     return out
 
 
@@ -104,6 +105,8 @@ def interesting(prop, ops):
         return len(kinds - {'none'}) >= 2
     if prop == 'C10':
         return bool(kinds & {'div', 'move', 'moveback', 'gendel'})
+    if prop == 'C05':
+        return any(o.get('mode') == 'step' for o in ops) or any(o.get('tpl') in ('T2', 'T4', 'T5') for o in ops)
     return bool(kinds & {'add', 'gen', 'div', 'move', 'del', 'delpath'})
 
 
@@ -184,6 +187,9 @@ def check(prop, tier, seed):
     with tlc.Scratch() as scratch:
         model_check(rep, prop, tier, scratch)
         validate(rep, prop, histories(tier, seed), scratch)
+        if prop == 'C10':
+            from vv import props_engine
+            props_engine.struct_check(rep, tier, seed, scratch)
         if prop == 'C07':
             from vv import prop_c07_static
             prop_c07_static.run(rep, tier, scratch)
